@@ -104,7 +104,10 @@ def check_locks(ctx: Ctx):
     cyc = [(a, b) for (a, b) in edges if (b, a) in edges]
     ctx.decide("R16.4", ev, ev.node, "aggregator:lock-order", "the lock-order graph is acyclic", not cyc, {"edges": sorted(edges)})
     ctx.decide("R16.5", ev, ev.node, "aggregator:no-reacquire", "no lock is acquired while it is already held (locks are not re-entrant)", not bad, {"locks": bad})
-    ctx.decide("R16.6", ev, ev.node, "aggregator:with-only", "locks are taken through `with` only, so they are released on every exit", not raw, {"raw": raw})
+    # raw acquire()/release(): fine if every acquire is released on every exit of its function -
+    # the acquire(s) are directly followed by a try whose finally releases what was acquired
+    unprotected = _unprotected_acquires(prog) if raw else []
+    ctx.decide("R16.6", ev, unprotected[0][1] if unprotected else ev.node, "aggregator:released-on-every-exit", "a lock is taken through `with`, or its acquire() is directly followed by try/finally that releases it: it is released on every exit, also when the protected code raises", not unprotected, {"acquire_without_finally": [f"{q}:{getattr(n, 'lineno', 0)} {norm(n)[:60]}" for q, n in unprotected]} if unprotected else None)
     late = []
     for itx in (it0, i1, i2):
         late += itx.root.late_locks
@@ -135,6 +138,63 @@ def _run_rule(ctx, name, fn):
     except (Undecided, AnchorMissing) as e:
         ctx.undecided(name, None, None, f"{name}:analysis", f"{type(e).__name__}: {e}")
         return 0
+
+
+def _unprotected_acquires(prog) -> list:
+    """(function qual, acquire call) for every  <x>.acquire()  in the aggregator module that is not
+    released on every exit:  the statement(s) after it up to the next `try` are only further acquires,
+    and that try's finally (or a loop in it) calls release() on the same object / on the elements of
+    the same collection."""
+    out = []
+    m = prog.module("panoptica_aggregator")
+    for f in [fn for fn in prog.functions.values() if fn.module is m]:
+        def scan(block):
+            for i, st in enumerate(block):
+                acq = _acquire_of(st)
+                if acq is not None:
+                    what, call = acq
+                    j = i + 1
+                    while j < len(block) and _acquire_of(block[j]) is not None:
+                        j += 1
+                    ok = False
+                    if j < len(block) and isinstance(block[j], ast.Try) and block[j].finalbody:
+                        rel = set()
+                        for n in ast.walk(ast.Module(body=block[j].finalbody, type_ignores=[])):
+                            if isinstance(n, ast.Call) and isinstance(n.func, ast.Attribute) and n.func.attr == "release":
+                                rel.add(norm(n.func.value))
+                            if isinstance(n, ast.For):
+                                it_ = n.iter
+                                while isinstance(it_, ast.Call) and it_.args:
+                                    it_ = it_.args[0]  # reversed(x) / list(x)
+                                if any(isinstance(c, ast.Call) and isinstance(c.func, ast.Attribute) and c.func.attr == "release" and isinstance(c.func.value, ast.Name) and isinstance(n.target, ast.Name) and c.func.value.id == n.target.id for c in ast.walk(n)):
+                                    rel.add("each:" + norm(it_))
+                        ok = what in rel
+                    if not ok:
+                        out.append((f.qual, call))
+                    continue
+                for fld in ("body", "orelse", "finalbody"):
+                    sub = getattr(st, fld, None)
+                    if isinstance(sub, list) and sub and isinstance(sub[0], ast.stmt):
+                        scan(sub)
+                for h in getattr(st, "handlers", []) or []:
+                    scan(h.body)
+
+        scan(f.node.body)
+    return out
+
+
+def _acquire_of(st):
+    """('<expr>' | 'each:<collection>', call) if the statement is  x.acquire()  or  for l in C: l.acquire()"""
+    if isinstance(st, ast.Expr) and isinstance(st.value, ast.Call) and isinstance(st.value.func, ast.Attribute) and st.value.func.attr == "acquire":
+        return norm(st.value.func.value), st.value
+    if isinstance(st, ast.For) and isinstance(st.target, ast.Name) and len(st.body) == 1:
+        inner = _acquire_of(st.body[0])
+        if inner is not None and inner[0] == st.target.id:
+            it_ = st.iter
+            while isinstance(it_, ast.Call) and it_.args:
+                it_ = it_.args[0]
+            return "each:" + norm(it_), inner[1]
+    return None
 
 
 def check_worker_copies(ctx: Ctx):
